@@ -407,7 +407,7 @@ fn dechunk(mut b: &[u8]) -> Option<Vec<u8>> {
         }
         // `size` comes straight off the wire: `size + 2` must not wrap.
         let end = size.checked_add(2)?;
-        if b.len() < end {
+        if b.len() < end || &b[size..end] != b"\r\n" {
             return None;
         }
         out.extend_from_slice(&b[..size]);
